@@ -105,15 +105,10 @@ theorem hostBr_chars {h : Str} (hh : ∀ c ∈ h, hostChar c = true) :
 /-- the host / port half of an assembled netloc parses back -/
 theorem hostinfo_tail {h : Str} (hh : ∀ c ∈ h, hostChar c = true) (port : Option Nat) :
     let hi := hostBr h ++ portText port
-    (match partitionChar '[' hi with
-      | (_, some bracketed) =>
-        let r := partitionChar ']' bracketed
-        (r.1, ((partitionChar ':' (r.2.getD [])).2).getD [])
-      | (_, none) =>
-        let r := partitionChar ':' hi
-        (r.1, r.2.getD [])) =
+    hostPortOf hi =
       (h, match port with | some 0 => [] | some k => (toString k).toList | none => []) := by
   intro hi
+  unfold hostPortOf
   have hpt : ∀ c ∈ portText port, c ≠ '[' := fun c hc => (hostChar_ne (portText_chars port c hc).1).2.1
   have hnb : '[' ∉ h := fun hm => (hostChar_ne (hh _ hm)).2.1 rfl
   have hnr : ']' ∉ h := fun hm => (hostChar_ne (hh _ hm)).2.2.1 rfl
@@ -247,7 +242,11 @@ theorem netloc_userinfo {fu fp : Str → Str} {p : Parts} (np : NetlocParts fu f
         | some u => (some (fu u), (truthy p.password).map fp)
         | none => (none, none)) := by
   unfold userinfo
-  rw [(rpartition_netloc np).2]
+  obtain ⟨_, h2⟩ := rpartition_netloc np
+  generalize rpartitionChar '@' (netloc fu fp p) = r at h2
+  obtain ⟨r1, r2⟩ := r
+  simp only at h2
+  subst h2
   cases hu : truthy p.username with
   | none => rfl
   | some u =>
@@ -316,6 +315,295 @@ theorem netloc_brackets (o : UrlOpaque) {fu fp : Str → Str} {p : Parts} (np : 
     have h2 : (authText fu fp p ++ (p.host ++ portText p.port)).contains ']' = false := by
       simp only [List.contains_eq_mem, decide_eq_false_iff_not, List.mem_append, not_or]
       exact ⟨fun hm => (hauth _ hm).2 rfl, fun hm => (hh _ hm).2 rfl, fun hm => (hport _ hm).2 rfl⟩
-    simp [h1, h2]
+    simp only [h1, h2, bne_self_eq_false, Bool.false_eq_true, if_false]
+
+/-! ### one conversion pass over URL text -/
+
+/-- the component functions of a conversion (`iri_to_uri`: quote, `uri_to_iri`: partial unquote) -/
+structure Conv where
+  fu : Str → Str
+  fp : Str → Str
+  fpath : Str → Str
+  fquery : Str → Str
+  ffrag : Str → Str
+
+def Conv.apply (F : Conv) (p : Parts) : Split :=
+  { scheme := p.scheme, netloc := netloc F.fu F.fp p, path := F.fpath p.path,
+    query := F.fquery p.query, fragment := F.ffrag p.fragment }
+
+def iriConv : Conv :=
+  { fu := quote Gen.UrlTables.iriUserSafe, fp := quote Gen.UrlTables.iriPasswordSafe,
+    fpath := quote Gen.UrlTables.iriPathSafe, fquery := quote Gen.UrlTables.iriQuerySafe,
+    ffrag := quote Gen.UrlTables.iriFragmentSafe }
+
+def uriConv : Conv :=
+  { fu := unquotePartial Gen.UrlTables.keepUser, fp := unquotePartial Gen.UrlTables.keepUser,
+    fpath := unquotePartial Gen.UrlTables.keepPath, fquery := unquotePartial Gen.UrlTables.keepQuery,
+    ffrag := unquotePartial Gen.UrlTables.keepFragment }
+
+theorem iriToUri_eq (p : Parts) : iriToUri p = iriConv.apply p := rfl
+theorem uriToIri_eq (p : Parts) : uriToIri p = uriConv.apply p := rfl
+
+/-- what a following pass reads back from the URL a pass produced -/
+def reparsed (F : Conv) (p : Parts) (h' : Str) : Parts :=
+  { scheme := p.scheme
+    username := (truthy p.username).map F.fu
+    password := match truthy p.username with
+      | some _ => (truthy p.password).map F.fp
+      | none => none
+    host := h'
+    port := match p.port with | some 0 => none | some k => some k | none => none
+    path := F.fpath p.path
+    query := F.fquery p.query
+    fragment := F.ffrag p.fragment }
+
+/-- **Pass lemma.** Splitting the URL text a pass produced gives its 5-tuple back, and the
+attributes read from it are the converted ones. -/
+theorem pass_reparse {o : UrlOpaque} {F : Conv} {p : Parts} (g : GoodSplit o (F.apply p))
+    (np : NetlocParts F.fu F.fp p) {conv' : Str → Option Str} {h' : Str} (hconv : conv' p.host = some h') :
+    urlsplit o (urlunsplit (F.apply p)) = .ok (F.apply p) ∧
+    partsOf conv' (F.apply p) = .ok (reparsed F p h') := by
+  refine ⟨urlsplit_urlunsplit g, ?_⟩
+  unfold partsOf
+  have hne : p.host.isEmpty = false := by
+    cases h : p.host with
+    | nil => exact absurd h np.host_ne
+    | cons _ _ => rfl
+  simp only [Conv.apply, netloc_hostinfo np, hne, Bool.false_eq_true, if_false, hconv, netloc_port np,
+    netloc_userinfo np]
+  unfold reparsed
+  cases hu : truthy p.username <;> simp
+
+/-- assembling `GoodSplit` for the tuple a pass produces -/
+theorem good_apply {o : UrlOpaque} {F : Conv} {p : Parts} (np : NetlocParts F.fu F.fp p)
+    (hs : validScheme p.scheme = true ∧ p.scheme.map asciiLower = p.scheme ∧ noTab p.scheme)
+    (hb : p.host.contains ':' = true → o.bracketOk p.host = true)
+    (hn : netlocOk o (netloc F.fu F.fp p) = true)
+    (hpath : (F.fpath p.path = [] ∨ (F.fpath p.path).head? = some '/') ∧ '?' ∉ F.fpath p.path ∧
+      '#' ∉ F.fpath p.path ∧ noTab (F.fpath p.path))
+    (hquery : '#' ∉ F.fquery p.query ∧ noTab (F.fquery p.query))
+    (hfrag : noTab (F.ffrag p.fragment)) : GoodSplit o (F.apply p) := by
+  obtain ⟨n1, n2⟩ := netloc_chars np
+  refine ⟨hs.1, hs.2.1, n1, fun c hc => (n2 c hc).1, ?_, hn, hpath.1, ⟨hpath.2.1, hpath.2.2.1⟩, hquery.1,
+    ⟨hs.2.2, fun c hc => (n2 c hc).2, hpath.2.2.2, hquery.2, hfrag⟩⟩
+  show bracketsOk o (netloc F.fu F.fp p) = true
+  rw [netloc_brackets o np]
+  split
+  · rename_i h; exact hb h
+  · rfl
+
+/-! ### facts about a first pass -/
+
+theorem partsOf_spec {conv : Str → Option Str} {sp : Split} {p : Parts} (h : partsOf conv sp = .ok p)
+    (hraw : (hostinfo sp.netloc).1 ≠ []) :
+    p.scheme = sp.scheme ∧ p.path = sp.path ∧ p.query = sp.query ∧ p.fragment = sp.fragment ∧
+    conv (hostinfo sp.netloc).1 = some p.host ∧ (∀ k, p.port = some k → k ≤ 65535) := by
+  unfold partsOf at h
+  have hne : (hostinfo sp.netloc).1.isEmpty = false := by
+    cases h' : (hostinfo sp.netloc).1 with
+    | nil => exact absurd h' hraw
+    | cons _ _ => rfl
+  simp only [hne, Bool.false_eq_true, if_false] at h
+  cases hc : conv (hostinfo sp.netloc).1 with
+  | none => simp [hc] at h
+  | some hh =>
+    simp only [hc] at h
+    cases hp : portOf sp.netloc with
+    | error e => simp [hp] at h
+    | ok port =>
+      simp only [hp, Except.ok.injEq] at h
+      subst h
+      refine ⟨rfl, rfl, rfl, rfl, rfl, ?_⟩
+      intro k hk
+      simp only at hk
+      subst hk
+      unfold portOf at hp
+      split at hp
+      · cases hp
+      · split at hp
+        · simp only at hp
+          split at hp
+          · simp only [Except.ok.injEq, Option.some.injEq] at hp
+            rename_i hle
+            rw [← hp]; exact hle
+          · cases hp
+        · cases hp
+
+theorem quote_ne {safe s : Str} (h : s ≠ []) : quote safe s ≠ [] := by
+  cases s with
+  | nil => exact absurd rfl h
+  | cons c t =>
+    have : quote safe (c :: t) = quote safe [c] ++ quote safe t := by rw [← quote_append]; rfl
+    rw [this]
+    intro he
+    have h1 := (List.append_eq_nil_iff.mp he).1
+    simp only [quote, quoteBytes, utf8Enc, List.flatMap_cons, List.flatMap_nil, List.append_nil] at h1
+    have hne := @String.utf8EncodeChar_ne_nil c
+    cases hb : String.utf8EncodeChar c with
+    | nil => exact hne hb
+    | cons b bs =>
+      rw [hb] at h1
+      simp only [List.flatMap_cons, List.append_eq_nil_iff] at h1
+      have := h1.1
+      unfold quoteByte at this
+      split at this <;> simp [pct] at this
+
+theorem quote_fixed {safe : Str} (hp : safe.contains '%' = true) (s : Str) : ∀ c ∈ quote safe s, Fixed safe c := by
+  intro c hc
+  obtain ⟨b, _, hb⟩ := List.mem_flatMap.mp hc
+  exact quoteByte_fixed hp b c hb
+
+theorem quote_cons_fixed {safe : Str} {c : Char} (hc : Fixed safe c) (s : Str) :
+    quote safe (c :: s) = c :: quote safe s := by
+  have : quote safe (c :: s) = quote safe [c] ++ quote safe s := by rw [← quote_append]; rfl
+  rw [this, quote_of_fixed [c] (by intro x hx; simp at hx; subst hx; exact hc)]
+  rfl
+
+/-- the characters `quote` lets through for the userinfo sets are plain, for the path set they are
+not `?`, `#`, TAB, CR, LF, ... (regenerated safe sets, all 128 ASCII codes) -/
+theorem safe_user_plain : ∀ n, n < 128 →
+    (isSafe Gen.UrlTables.iriUserSafe (UInt8.ofNat n) = true → plainChar (Char.ofNat n) = true) ∧
+    (isSafe Gen.UrlTables.iriPasswordSafe (UInt8.ofNat n) = true → plainChar (Char.ofNat n) = true) := by
+  decide +kernel
+
+theorem safe_path_ok : ∀ n, n < 128 → isSafe Gen.UrlTables.iriPathSafe (UInt8.ofNat n) = true →
+    Char.ofNat n ≠ '?' ∧ Char.ofNat n ≠ '#' ∧ isTabCrLf (Char.ofNat n) = false := by decide +kernel
+
+theorem safe_query_ok : ∀ n, n < 128 → isSafe Gen.UrlTables.iriQuerySafe (UInt8.ofNat n) = true →
+    Char.ofNat n ≠ '#' ∧ isTabCrLf (Char.ofNat n) = false := by decide +kernel
+
+theorem safe_frag_ok : ∀ n, n < 128 → isSafe Gen.UrlTables.iriFragmentSafe (UInt8.ofNat n) = true →
+    isTabCrLf (Char.ofNat n) = false := by decide +kernel
+
+theorem fixed_transfer {safe : Str} {P : Char → Prop}
+    (tbl : ∀ n, n < 128 → isSafe safe (UInt8.ofNat n) = true → P (Char.ofNat n)) {c : Char}
+    (hc : Fixed safe c) : P c := by
+  have := tbl c.toNat hc.1 hc.2
+  rwa [Char.ofNat_toNat] at this
+
+/-- laws assumed of the opaque `hostname.lower()` + IDNA encoding -/
+structure AsciiHostLaws (o : UrlOpaque) : Prop where
+  chars : ∀ h r, o.hostToAscii h = some r → r ≠ [] ∧ ∀ c ∈ r, hostChar c = true ∧ c.toNat < 128
+  fixed : ∀ h r, o.hostToAscii h = some r → o.hostToAscii r = some r
+  bracket : ∀ h r, o.hostToAscii h = some r → r.contains ':' = true → o.bracketOk r = true
+
+/-- a URL of the property's grammar: it splits, has a scheme and a host -/
+def InGrammar (o : UrlOpaque) (url : Str) : Prop :=
+  ∃ sp, urlsplit o url = .ok sp ∧ sp.scheme ≠ [] ∧ (hostinfo sp.netloc).1 ≠ []
+
+theorem allAscii_iff {s : Str} : allAscii s = true ↔ ∀ c ∈ s, c.toNat < 128 := by
+  simp [allAscii]
+
+/-- everything known about the parts of a grammar URL after the first `iri_to_uri` pass -/
+theorem iri_first_pass {o : UrlOpaque} (laws : AsciiHostLaws o) {url : Str} {sp : Split} {p : Parts}
+    (hsp : urlsplit o url = .ok sp) (hp : partsOf o.hostToAscii sp = .ok p) (hsch : sp.scheme ≠ [])
+    (hraw : (hostinfo sp.netloc).1 ≠ []) :
+    NetlocParts iriConv.fu iriConv.fp p ∧ GoodSplit o (iriConv.apply p) ∧
+    o.hostToAscii p.host = some p.host ∧ (∀ c ∈ netloc iriConv.fu iriConv.fp p, c.toNat < 128) := by
+  have shape := urlsplit_shape hsp
+  obtain ⟨e1, e2, e3, e4, hconv, hport⟩ := partsOf_spec hp hraw
+  obtain ⟨hne, hchars⟩ := laws.chars _ _ hconv
+  have hpU : Gen.UrlTables.iriUserSafe.contains '%' = true := by decide
+  have hpP : Gen.UrlTables.iriPasswordSafe.contains '%' = true := by decide
+  have np : NetlocParts iriConv.fu iriConv.fp p := by
+    refine ⟨hne, fun c hc => (hchars c hc).1, ?_, ?_, hport⟩
+    · intro u hu
+      have hune : u ≠ [] := by
+        intro e; subst e
+        cases hx : p.username with
+        | none => simp [truthy, hx] at hu
+        | some v => cases v <;> simp [truthy, hx] at hu
+      exact ⟨quote_ne hune, fun c hc =>
+        fixed_transfer (P := fun c => plainChar c = true) (fun n hn h => (safe_user_plain n hn).1 h)
+          (quote_fixed hpU u c hc)⟩
+    · intro pw hpw
+      have hpne : pw ≠ [] := by
+        intro e; subst e
+        cases hx : p.password with
+        | none => simp [truthy, hx] at hpw
+        | some v => cases v <;> simp [truthy, hx] at hpw
+      exact ⟨quote_ne hpne, fun c hc =>
+        fixed_transfer (P := fun c => plainChar c = true) (fun n hn h => (safe_user_plain n hn).2 h)
+          (quote_fixed hpP pw c hc)⟩
+  have hascii : ∀ c ∈ netloc iriConv.fu iriConv.fp p, c.toNat < 128 := by
+    intro c hc
+    rw [netloc_eq] at hc
+    rcases List.mem_append.mp hc with hc | hc
+    · unfold authText at hc
+      cases hu : truthy p.username with
+      | none => simp [hu] at hc
+      | some u =>
+        simp only [hu] at hc
+        rcases List.mem_append.mp hc with hc | hc
+        · rcases List.mem_append.mp hc with hc | hc
+          · exact quoteBytes_ascii _ _ c hc
+          · cases hpw : truthy p.password with
+            | none => simp [hpw] at hc
+            | some pw =>
+              simp only [hpw, List.mem_cons] at hc
+              rcases hc with rfl | hc
+              · decide
+              · exact quoteBytes_ascii _ _ c hc
+        · simp at hc; subst hc; decide
+    · rcases List.mem_append.mp hc with hc | hc
+      · unfold hostBr at hc
+        split at hc
+        · simp only [List.cons_append, List.mem_cons, List.mem_append, List.mem_nil_iff, or_false] at hc
+          rcases hc with rfl | hc | rfl
+          · decide
+          · exact (hchars c hc).2
+          · decide
+        · exact (hchars c hc).2
+      · exact (portText_chars p.port c hc).2
+  have hscheme : validScheme p.scheme = true ∧ p.scheme.map asciiLower = p.scheme ∧ noTab p.scheme := by
+    rw [e1]
+    rcases shape.scheme with h | h
+    · exact absurd h hsch
+    · exact ⟨h.1, h.2, shape.tabs.1⟩
+  have hnetne : sp.netloc ≠ [] := by
+    intro e
+    apply hraw
+    rw [e]; rfl
+  have hpF : Gen.UrlTables.iriPathSafe.contains '%' = true := by decide
+  have hqF : Gen.UrlTables.iriQuerySafe.contains '%' = true := by decide
+  have hfF : Gen.UrlTables.iriFragmentSafe.contains '%' = true := by decide
+  have g : GoodSplit o (iriConv.apply p) := by
+    apply good_apply np hscheme (laws.bracket _ _ hconv)
+    · simp only [netlocOk, Bool.or_eq_true]
+      exact Or.inl (Or.inr (allAscii_iff.mpr hascii))
+    · refine ⟨?_, ?_, ?_, ?_⟩
+      · show quote Gen.UrlTables.iriPathSafe p.path = [] ∨ _
+        rw [e2]
+        rcases shape.path_form hnetne with h | h
+        · left; rw [h]; rfl
+        · right
+          cases hpath : sp.path with
+          | nil => rw [hpath] at h; cases h
+          | cons x xs =>
+            rw [hpath] at h
+            simp at h
+            subst h
+            show (quote Gen.UrlTables.iriPathSafe ('/' :: xs)).head? = some '/'
+            rw [quote_cons_fixed (show Fixed Gen.UrlTables.iriPathSafe '/' from ⟨by decide, by decide⟩)]
+            rfl
+      · intro hm
+        exact (fixed_transfer (P := fun c => c ≠ '?' ∧ c ≠ '#' ∧ isTabCrLf c = false) safe_path_ok
+          (quote_fixed hpF p.path _ hm)).1 rfl
+      · intro hm
+        exact (fixed_transfer (P := fun c => c ≠ '?' ∧ c ≠ '#' ∧ isTabCrLf c = false) safe_path_ok
+          (quote_fixed hpF p.path _ hm)).2.1 rfl
+      · intro c hc
+        exact (fixed_transfer (P := fun c => c ≠ '?' ∧ c ≠ '#' ∧ isTabCrLf c = false) safe_path_ok
+          (quote_fixed hpF p.path _ hc)).2.2
+    · refine ⟨?_, ?_⟩
+      · intro hm
+        exact (fixed_transfer (P := fun c => c ≠ '#' ∧ isTabCrLf c = false) safe_query_ok
+          (quote_fixed hqF p.query _ hm)).1 rfl
+      · intro c hc
+        exact (fixed_transfer (P := fun c => c ≠ '#' ∧ isTabCrLf c = false) safe_query_ok
+          (quote_fixed hqF p.query _ hc)).2
+    · intro c hc
+      exact fixed_transfer (P := fun c => isTabCrLf c = false) safe_frag_ok (quote_fixed hfF p.fragment _ hc)
+  exact ⟨np, g, laws.fixed _ _ hconv, hascii⟩
 
 end Wz.Url
